@@ -14,8 +14,9 @@ Definition runc (c : cfg) (nw : nat) (sched : list choice) : state := run (step 
 
 Lemma inv_init : forall c nw, (0 < nw)%nat -> Inv c (init nw).
 Proof.
-  intros. repeat split; try apply inv1_init; try apply inv2_init; try apply inv3_init; try apply inv4_init; auto;
-    apply inv5_init.
+  intros. unfold Inv.
+  split; [apply inv1_init|]. split; [apply inv2_init; auto|]. split; [apply inv3_init|].
+  split; [apply inv4_init|apply inv5_init].
 Qed.
 
 (* the ghost flag is never reset *)
@@ -37,13 +38,9 @@ Qed.
 Lemma inv_step : forall c s ch s' l,
   0 <= hw c -> Inv c s -> step c s ch = Some (s', l) -> taint s' = false -> Inv c s'.
 Proof.
-  intros c s ch s' l Hhw (H1 & H2 & H3 & H4 & H5) H Ht. repeat split.
-  - eapply inv1_step; eauto.
-  - eapply inv2_step; eauto.
-  - eapply inv3_step; eauto.
-  - eapply inv4_step; eauto.
-  - eapply inv5_step; eauto.
-  - eapply inv5_step; eauto.
+  intros c s ch s' l Hhw (H1 & H2 & H3 & H4 & H5) H Ht. unfold Inv.
+  split; [eapply inv1_step; eauto|]. split; [eapply inv2_step; eauto|]. split; [eapply inv3_step; eauto|].
+  split; [eapply inv4_step; eauto|eapply inv5_step; eauto].
 Qed.
 
 Theorem inv_reachable : forall c nw sched,
@@ -54,4 +51,150 @@ Proof.
   - intros _. apply inv_init; auto.
   - intros s ch s' l IH H Ht. eapply inv_step; eauto. apply IH.
     destruct (taint s) eqn:E; auto. rewrite (taint_mono _ _ _ _ _ H E) in Ht. discriminate.
+Qed.
+
+Lemma forallb_nth : forall A (f : A -> bool) l j p,
+  forallb f l = true -> nth_error l j = Some p -> f p = true.
+Proof. intros. rewrite forallb_forall in H. apply H. eapply nth_error_In; eauto. Qed.
+
+Lemma existsb_false_nth : forall A (f : A -> bool) l j p,
+  existsb f l = false -> nth_error l j = Some p -> f p = false.
+Proof.
+  intros. destruct (f p) eqn:E; auto. rewrite (existsb_nth _ _ _ _ _ H0 E) in H. discriminate.
+Qed.
+
+Lemma forallb_intro : forall A (f : A -> bool) l,
+  (forall j p, nth_error l j = Some p -> f p = true) -> forallb f l = true.
+Proof.
+  intros. apply forallb_forall. intros x Hx. apply In_nth_error in Hx. destruct Hx as [j Hj]. eauto.
+Qed.
+
+Lemma existsb_intro_false : forall A (f : A -> bool) l,
+  (forall j p, nth_error l j = Some p -> f p = false) -> existsb f l = false.
+Proof.
+  intros. destruct (existsb f l) eqn:E; auto. apply existsb_ex in E. destruct E as (j & p & Hj & Hp).
+  rewrite (H _ _ Hj) in Hp. discriminate.
+Qed.
+
+(* the predicate of C05 in a quiescent state, from the invariant *)
+Lemma quiescent_ok : forall c s,
+  1 <= hw c -> Inv c s -> quiescent_parked s = true -> in_kf_class s = false -> c05_ok s = true.
+Proof.
+  intros c s Hhw (H1 & H2 & H3 & H4 & (HJw & HJr)) Hq Hkf.
+  unfold quiescent_parked in Hq. destruct (io s) eqn:Eio; try discriminate.
+  apply andb_true_iff in Hq. destruct Hq as [Hsel Hall]. apply negb_true_iff in Hsel.
+  unfold sel_enabled in Hsel. apply orb_false_iff in Hsel. destruct Hsel as [Hsel Hrd].
+  apply orb_false_iff in Hsel. destruct Hsel as [Hpull Hw]. subst w.
+  unfold in_kf_class in Hkf. apply orb_false_iff in Hkf. destruct Hkf as [Htaint Hpac].
+  assert (Hwp : existsb will_pull (ws s) = false).
+  { apply existsb_intro_false. intros j p Hj. pose proof (forallb_nth _ _ _ _ _ Hall Hj) as Hp.
+    destruct p; simpl in Hp; try discriminate; reflexivity. }
+  (* the wake-up invariant, read backwards: nothing is writable *)
+  assert (HnoW : closed s = false -> total s <= 0 /\ wc s = false /\ cwf s = false).
+  { intros Hc. unfold Jw in HJw. rewrite Eio, Hpull, Hwp in HJw. simpl in HJw.
+    destruct (Z_lt_dec 0 (total s)) as [Hlt|Hge].
+    - destruct (HJw Hc (or_introl Hlt)) as [Hx|[[Hx|[Hx|Hx]]|Hx]]; try discriminate; destruct Hx; discriminate.
+    - destruct (wc s) eqn:Ewc.
+      + destruct (HJw Hc (or_intror (or_introl eq_refl))) as [Hx|[[Hx|[Hx|Hx]]|Hx]]; try discriminate; destruct Hx; discriminate.
+      + destruct (cwf s) eqn:Ecwf.
+        * destruct (HJw Hc (or_intror (or_intror eq_refl))) as [Hx|[[Hx|[Hx|Hx]]|Hx]]; try discriminate; destruct Hx; discriminate.
+        * repeat split; auto. lia. }
+  (* no producer is parked *)
+  assert (Hnp : forall j p, nth_error (ws s) j = Some p -> parked_o p = false).
+  { intros j p Hj. destruct (parked_o p) eqn:Pp; auto. exfalso.
+    pose proof (H4 _ _ Hj) as Hp4. pose proof (existsb_false_nth _ _ _ _ _ Hpac Hj) as Hnk.
+    destruct p; simpl in Pp; try discriminate; simpl in Hp4, Hnk.
+    - (* exception branch *)
+      destruct cap; [|discriminate]. destruct Hp4 as (Hwc & Hcn). rewrite Eio in Hcn. simpl in Hcn.
+      destruct (Hcn eq_refl) as [Hcn'|Hx]; [|discriminate].
+      assert (Hc : closed s = false).
+      { destruct (closed s) eqn:E; auto. rewrite (i3_c2 _ H3 E) in Hcn'. discriminate. }
+      destruct (HnoW Hc) as (_ & Hx & _). congruence.
+    - (* watermark loop *)
+      destruct Hp4 as (Hns & Hcn). rewrite Eio in Hcn. simpl in Hcn. unfold notif_soon in Hns. rewrite Eio in Hns.
+      simpl in Hns. destruct Hcn as [Hcn'|Hx]; [|discriminate].
+      assert (Hc : closed s = false).
+      { destruct (closed s) eqn:E; auto. rewrite (i3_c2 _ H3 E) in Hcn'. discriminate. }
+      destruct (HnoW Hc) as (Hx & _ & _). destruct Hns as [Hns|[Hns|Hns]]; try discriminate. lia. }
+  assert (Hidle : forall j p, nth_error (ws s) j = Some p -> w_idle p = true).
+  { intros j p Hj. pose proof (forallb_nth _ _ _ _ _ Hall Hj) as Hp. simpl in Hp. rewrite (Hnp _ _ Hj) in Hp.
+    rewrite orb_false_r in Hp. exact Hp. }
+  unfold c05_ok. repeat (apply andb_true_iff; split).
+  - (* no pending output *)
+    unfold no_pending_output. destruct (closed s) eqn:Ec; auto. simpl.
+    destruct (HnoW eq_refl) as (Ht0 & _ & _).
+    assert (Hcn : conn s = true).
+    { destruct (conn s) eqn:E; auto. destruct (i3_c3 _ H3 E) as [Hx|Hx]; [congruence|].
+      rewrite Eio in Hx. discriminate. }
+    pose proof (i3_tot _ H3) as Htp. unfold tot_ok in Htp. rewrite Eio in Htp. specialize (Htp Hcn).
+    pose proof (i3_pend _ H3). apply andb_true_iff. split; apply Z.eqb_eq; lia.
+  - (* no unserviced request *)
+    unfold no_unserved_request. destruct (closed s) eqn:Ec; auto. simpl.
+    destruct (HnoW eq_refl) as (Ht0 & Hwc & Hcwf).
+    assert (Hcn : conn s = true).
+    { destruct (conn s) eqn:E; auto. destruct (i3_c3 _ H3 E) as [Hx|Hx]; [congruence|].
+      rewrite Eio in Hx. discriminate. }
+    assert (Hq0 : queue s = 0%nat).
+    { destruct (queue s) eqn:E; auto. exfalso.
+      destruct (i2_q1 _ H2) as (j & p & Hj & Hp); [lia|]. rewrite (Hidle _ _ Hj) in Hp. discriminate. }
+    assert (Hnb : existsb w_busy (ws s) = false).
+    { apply existsb_intro_false. intros j p Hj. pose proof (Hidle _ _ Hj). destruct p; try discriminate; reflexivity. }
+    assert (Hn0 : nreq s = 0%nat).
+    { destruct (nreq s) eqn:E; auto. exfalso.
+      destruct (i2_s1 _ H2) as [Hx|[Hx|[Hx|Hx]]]; try lia; try congruence.
+      unfold pendadd in Hx. rewrite Eio in Hx. discriminate. }
+    rewrite Hn0, Hq0. simpl.
+    assert (Htot0 : total s = 0).
+    { pose proof (i3_tot _ H3) as Htp. unfold tot_ok in Htp. rewrite Eio in Htp. specialize (Htp Hcn).
+      pose proof (i3_pend _ H3). lia. }
+    unfold Jr in HJr. rewrite Eio, Hpull, Hwp in HJr. simpl in HJr.
+    assert (Hrdy : wc s = false /\ cwf s = false /\ (nreq s <= lookahead c)%nat /\ total s = 0)
+      by (repeat split; auto; rewrite Hn0; lia).
+    destruct (HJr Ec Hrdy) as [Hx|[Hx|Hx]]; try discriminate.
+    destruct r; [|discriminate]. simpl in Hrd. unfold read_ready in Hrd. destruct (rx s); auto.
+  - (* no producer parked *)
+    unfold no_producer_parked. apply forallb_intro. intros j p Hj. rewrite (Hnp _ _ Hj). reflexivity.
+  - (* closing -> closed *)
+    unfold closing_closed. destruct (closed s) eqn:Ec; [apply orb_true_r|].
+    destruct (HnoW eq_refl) as (_ & Hwc & Hcwf). rewrite Hwc, Hcwf. reflexivity.
+Qed.
+
+(* ---- the theorems of C05 ------------------------------------------------------------- *)
+Theorem c05_partial : forall c nw sched,
+  1 <= hw c -> (0 < nw)%nat ->
+  quiescent_parked (runc c nw sched) = true ->
+  in_kf_class (runc c nw sched) = false ->
+  c05_ok (runc c nw sched) = true.
+Proof.
+  intros c nw sched Hhw Hnw Hq Hkf. apply (quiescent_ok c); auto.
+  apply inv_reachable; auto; try lia.
+  unfold in_kf_class in Hkf. apply orb_false_iff in Hkf. tauto.
+Qed.
+
+(* the same, conjunct by conjunct, in words of the model *)
+Theorem c05_partial_unfolded : forall c nw sched s,
+  1 <= hw c -> (0 < nw)%nat -> s = runc c nw sched ->
+  quiescent_parked s = true -> taint s = false -> existsb parked_after_close (ws s) = false ->
+  (closed s = false -> total s = 0 /\ pend s = 0) /\
+  (closed s = false -> nreq s = 0%nat /\ queue s = 0%nat /\ rx s = []) /\
+  (forall j p, nth_error (ws s) j = Some p -> parked_o p = false) /\
+  (wc s = true \/ cwf s = true -> closed s = true).
+Proof.
+  intros c nw sched s Hhw Hnw -> Hq Ht Hp.
+  assert (Hk : in_kf_class (runc c nw sched) = false) by (unfold in_kf_class; rewrite Ht, Hp; reflexivity).
+  pose proof (c05_partial c nw sched Hhw Hnw Hq Hk) as H. unfold c05_ok in H.
+  repeat (apply andb_true_iff in H; destruct H as [H ?]).
+  repeat split.
+  - unfold no_pending_output in H. rewrite H3 in H. simpl in H. apply andb_true_iff in H. destruct H. apply Z.eqb_eq; auto.
+  - unfold no_pending_output in H. rewrite H3 in H. simpl in H. apply andb_true_iff in H. destruct H. apply Z.eqb_eq; auto.
+  - unfold no_unserved_request in H2. rewrite H3 in H2. simpl in H2.
+    repeat (apply andb_true_iff in H2; destruct H2 as [H2 ?]). apply Nat.eqb_eq; auto.
+  - unfold no_unserved_request in H2. rewrite H3 in H2. simpl in H2.
+    repeat (apply andb_true_iff in H2; destruct H2 as [H2 ?]). apply Nat.eqb_eq; auto.
+  - unfold no_unserved_request in H2. rewrite H3 in H2. simpl in H2.
+    repeat (apply andb_true_iff in H2; destruct H2 as [H2 ?]). destruct (rx (runc c nw sched)); auto; discriminate.
+  - intros j p Hj. unfold no_producer_parked in H1. pose proof (forallb_nth _ _ _ _ _ H1 Hj) as Hx.
+    simpl in Hx. apply negb_true_iff in Hx. exact Hx.
+  - intros Hcl. unfold closing_closed in H0. destruct (closed (runc c nw sched)); auto.
+    rewrite orb_false_r in H0. apply negb_true_iff in H0. apply orb_false_iff in H0. destruct H0. destruct Hcl; congruence.
 Qed.
